@@ -180,13 +180,31 @@ def run_verus_unit(unit, keep_dir=None, extra_args=None, rlimit=None, mutate=Non
                 if "at the end of the function body" in lab or "at this exit" in lab or "failed precondition" in lab.lower():
                     pass
             site = None
-            for sp in spans:
+            def in_fn(sp):
                 for it in res.items:
                     a, b = it["gen_lines"]
                     if a <= sp["line_start"] <= b and it["kind"] == "fn":
-                        t = (sp.get("text") or [{}])[0].get("text", "").strip()
-                        if not TAG_RE.search(t):
-                            site = {"fn": it["name"], "text": t, "gen_line": sp["line_start"]}
+                        return it
+                return None
+            cands = []
+            for sp in spans:
+                it = in_fn(sp)
+                if not it:
+                    continue
+                lab = (sp.get("label") or "")
+                t = (sp.get("text") or [{}])[0].get("text", "").strip()
+                if "at this exit" in lab or "at the end of the function body" in lab:
+                    pr = 0
+                elif "failed this postcondition" in lab or "failed precondition" in lab or "failed this" in lab:
+                    pr = 3
+                elif sp.get("is_primary"):
+                    pr = 1
+                else:
+                    pr = 2
+                cands.append((pr, {"fn": it["name"], "text": t, "gen_line": sp["line_start"]}))
+            if cands:
+                cands.sort(key=lambda c: c[0])
+                site = cands[0][1]
             res.failures.append({
                 "message": msg, "tags": sorted(set(tags)),
                 "function": fn["name"] if fn else None,
